@@ -167,40 +167,47 @@ Proof. exact metric_name_mode_spec. Qed.
 Print Assumptions c17_metric_name_mode.
 
 (* ---- the summary printed at the end of Tuner.run() -------------------------
-   With a single mode it is print_best_metric_found for the first metric (c17_best_tuner
-   applies). With a mode LIST the statement "the reported trial attains the optimum per
-   mode" is FALSE of the faithful model: the list is read as "max". Witness replayed on
-   the real code by the driver (finding, signature part=final_summary). *)
-Theorem c17_final_summary_one_mode :
-  forall name names m ts,
-    tuner_final_summary (name :: names) (OneMode m) ts = print_best ts name m.
-Proof. exact final_summary_one_mode. Qed.
-Print Assumptions c17_final_summary_one_mode.
+   It is print_best_metric_found for the FIRST metric with THAT metric's mode (single
+   mode or first entry of the mode list), so c17_best_tuner applies to it.
+   History: before /repo commit 4548aec a mode LIST was read as "max" (three trials with
+   loss 9/10, 1/10, 1/2 and modes [min; min] -> the summary named trial 0 with 9/10);
+   the driver still detects that behaviour (signature part=final_summary,
+   defect=mode_list_read_as_max; replay findings/C17-final-summary-mode-list.json). *)
+Theorem c17_final_summary :
+  forall names ms ts r,
+    tuner_final_summary names ms ts = Some r ->
+    exists name m, metric_name_mode names ms (ByIndex 0) = Some (name, m) /\ print_best ts name m = Some r.
+Proof. exact final_summary_spec. Qed.
+Print Assumptions c17_final_summary.
 
-Theorem c17_final_summary_refuted :
-  exists (names : list key) (ms : modes) (history : list (list Z * list (Z * dict))) name t v t' x,
-    metric_name_mode names ms (ByIndex 0) = Some (name, Min) /\
-    tuner_final_summary names ms (ts_run history) = Some (t, v) /\
-    In x (counted name (of_trial t' (handed history))) /\
-    better Min x v = true.
-Proof. exact final_summary_mode_list_wrong. Qed.
-Print Assumptions c17_final_summary_refuted.
+Theorem c17_final_summary_defined :
+  forall name names ms m ts,
+    metric_name_mode (name :: names) ms (ByIndex 0) = Some (name, m) ->
+    tuner_final_summary (name :: names) ms ts = print_best ts name m.
+Proof. exact final_summary_defined. Qed.
+Print Assumptions c17_final_summary_defined.
 
 (* ---- best configuration of the loaded experiment ---------------------------
-   For EVERY table: the reported row j holds a non-NaN value x of the metric, no row
-   holds a strictly better one, every earlier row holding a value holds a strictly
-   worse one (first on ties), and the reported configuration is that row without its
-   st_* columns; an error exactly when no row holds a value (or the metric does not
-   exist). Tables whose metric column holds non-numeric objects are outside the model. *)
+   For EVERY table (pandas Series.argmin/argmax with skipna: cells without a value,
+   NaN or missing, are filled with +inf for "min" / -inf for "max"): an error exactly when
+   no row holds a value (or the metric does not exist); otherwise the reported row j is
+   the FIRST row whose filled value is not beaten: no row is strictly better, every
+   earlier row is strictly worse; the reported configuration is row j without its st_*
+   columns. Hence, unless every value in the column is the worst infinity, row j holds
+   a real value and it is the optimum over the rows (c17_best_experiment_attains).
+   Tables whose metric column holds non-numeric objects are outside the model. *)
 Theorem c17_best_experiment :
   forall names ms metric (table : list dict),
     match exp_best_config names ms metric table with
     | EBest j cfg =>
-        exists name m x, metric_name_mode names ms metric = Some (name, m) /\
-          (j < length table)%nat /\ cell_num (cell_of name (nth j table [])) = Some x /\
+        exists name m, metric_name_mode names ms metric = Some (name, m) /\
+          (j < length table)%nat /\
           cfg = strip_st (nth j table []) /\
-          (forall j' x', (j' < length table)%nat -> cell_num (cell_of name (nth j' table [])) = Some x' ->
-                         better m x' x = false /\ ((j' < j)%nat -> better m x x' = true))
+          (exists j0, (j0 < length table)%nat /\ cell_num (cell_of name (nth j0 table [])) <> None) /\
+          (forall j', (j' < length table)%nat ->
+             better m (cell_fill m (cell_of name (nth j' table []))) (cell_fill m (cell_of name (nth j table []))) = false /\
+             ((j' < j)%nat ->
+              better m (cell_fill m (cell_of name (nth j table []))) (cell_fill m (cell_of name (nth j' table []))) = true))
     | EError =>
         metric_name_mode names ms metric = None \/
         exists name m, metric_name_mode names ms metric = Some (name, m) /\
@@ -211,6 +218,20 @@ Theorem c17_best_experiment :
     end.
 Proof. exact exp_best_spec. Qed.
 Print Assumptions c17_best_experiment.
+
+(* some row holds a value better than the fill value: the reported row holds a real
+   value, and no real value in the table is strictly better *)
+Theorem c17_best_experiment_attains :
+  forall names ms metric (table : list dict) j cfg name m j0 x0,
+    exp_best_config names ms metric table = EBest j cfg ->
+    metric_name_mode names ms metric = Some (name, m) ->
+    (j0 < length table)%nat -> cell_num (cell_of name (nth j0 table [])) = Some x0 ->
+    better m x0 (opt_dflt m) = true ->
+    exists x, cell_num (cell_of name (nth j table [])) = Some x /\
+      forall j' x', (j' < length table)%nat -> cell_num (cell_of name (nth j' table [])) = Some x' ->
+                    better m x' x = false.
+Proof. exact exp_best_attains. Qed.
+Print Assumptions c17_best_experiment_attains.
 
 Theorem c17_strip_st :
   forall k row, dget k (strip_st row) = if key_is_st k then None else dget k row.
